@@ -164,9 +164,14 @@ def decide(prop, tier, seed):
                 continue
             # explicit clauses relevant to this property + one implicit safety obligation
             cls = [c for c in ef.clauses if c.kind != 'canary' and prop in clause_props(c, ef.props)]
-            n = len(cls) + 1
             fl = [f for f in fail_by_fn.get(ef.qual, [])
                   if (f.clause is None) or (prop in clause_props(f.clause, ef.props))]
+            if spec.get('safety_only'):
+                # totality: only the implicit safety obligations of the function (overflow, division, bounds, unwrap, unreachable,
+                # callee preconditions at its call sites) belong to this property, not its functional clauses
+                cls = []
+                fl = [f for f in fl if f.clause is None or f.kind.startswith('requires@')]
+            n = len(cls) + 1
             # also failures reported in this fn but attributed to a callee's requires clause
             failed_ids = sorted(set(f.oid for f in fl))
             obligations += n
